@@ -4,6 +4,7 @@ package main
 // metric labels taken from the event, Propagate / Spawn, real stream time-outs):
 //
 //   c13.pipe <plugin> <cfg hex JSON> <ps> <nl> <metric label field hex>… <n> (E <JTree> | R <hex>)…
+//   c13.pipeout …same…        with the real stdout output plugin instead of devnull (out=0: no per-event check)
 //   result   cfg-rejected | in=<accepted> out=<k> <status>×k left=<events still in flight>
 //
 // The action runs inside a real pipeline (fake input, devnull output, one processor, event
@@ -14,6 +15,7 @@ package main
 import (
 	"encoding/json"
 	"fmt"
+	"os"
 	"strings"
 	"sync"
 	"time"
@@ -22,16 +24,20 @@ import (
 	"github.com/ozontech/file.d/pipeline"
 	"github.com/ozontech/file.d/plugin/input/fake"
 	"github.com/ozontech/file.d/plugin/output/devnull"
+	"github.com/ozontech/file.d/plugin/output/stdout"
 	"github.com/prometheus/client_golang/prometheus"
 
 	"verifharness/internal/hx"
 )
 
 func init() {
-	execs["c13.pipe"] = c13Isolated("c13.pipe", c13PipeDirect)
+	execs["c13.pipe"] = c13Isolated("c13.pipe", func(t *hx.Toks) string { return c13PipeDirect(t, false) })
+	// the same with the real `stdout` output plugin (it encodes every event it is given, without a
+	// batcher in between); os.Stdout points to /dev/null while the pipeline runs
+	execs["c13.pipeout"] = c13Isolated("c13.pipeout", func(t *hx.Toks) string { return c13PipeDirect(t, true) })
 }
 
-func c13PipeDirect(t *hx.Toks) string {
+func c13PipeDirect(t *hx.Toks, realStdout bool) string {
 	lg := c13SetupLogger()
 	name := t.Next()
 	cfgJSON := t.Bytes()
@@ -88,10 +94,23 @@ func c13PipeDirect(t *hx.Toks) string {
 	})
 	outAny, _ := devnull.Factory()
 	output := outAny.(*devnull.Plugin)
-	p.SetOutput(&pipeline.OutputPluginInfo{
-		PluginStaticInfo:  &pipeline.PluginStaticInfo{Type: "devnull"},
-		PluginRuntimeInfo: &pipeline.PluginRuntimeInfo{Plugin: output},
-	})
+	if realStdout {
+		so, _ := stdout.Factory()
+		p.SetOutput(&pipeline.OutputPluginInfo{
+			PluginStaticInfo:  &pipeline.PluginStaticInfo{Type: "stdout"},
+			PluginRuntimeInfo: &pipeline.PluginRuntimeInfo{Plugin: so},
+		})
+		if null, err := os.OpenFile(os.DevNull, os.O_WRONLY, 0); err == nil {
+			saved := os.Stdout
+			os.Stdout = null
+			defer func() { os.Stdout = saved; null.Close() }()
+		}
+	} else {
+		p.SetOutput(&pipeline.OutputPluginInfo{
+			PluginStaticInfo:  &pipeline.PluginStaticInfo{Type: "devnull"},
+			PluginRuntimeInfo: &pipeline.PluginRuntimeInfo{Plugin: output},
+		})
+	}
 	allStd := true
 	for _, e := range evs {
 		if e.kind != 'T' && !json.Valid(e.text) {
@@ -101,6 +120,11 @@ func c13PipeDirect(t *hx.Toks) string {
 	var mu sync.Mutex
 	var statuses []string
 	output.SetOutFn(func(e *pipeline.Event) {
+		// the parent of spawned children ("Parent event will be discarded", split) is handed to the
+		// output for commit accounting only: Batch.ForEach skips it, so does this check
+		if e.IsChildParentKind() {
+			return
+		}
 		st := "ok"
 		if e.Root != nil {
 			enc, est := c13Encode(e.Root.Node)
